@@ -29,6 +29,20 @@ CLAIMED = {
              "Python re for REGEX_LENGTH (scanner validated by the stream); Viewbox construction abstracted to (width,height).",
         technique="Lean 4 proof (case analysis over unit pairs + field arithmetic) + exhaustive differential correspondence + exact-rational oracle",
         ref="DESIGN.md §4 C12"),
+    "C13": dict(
+        text="Lean 4: (1) the code's answer for every one of the 147 keywords x 3 letter cases, transparent and none is re-extracted "
+             "from /repo on every run into Generated/C13_Observed.lean and compared by the kernel (decide +kernel) with the table "
+             "transcribed from the SVG 1.1 specification; (2) for every 32-bit word and every integer argument each channel setter "
+             "changes only its channel and reads back clamped, rgb/rgba/argb/bgr packings round-trip, Color(c.hex)=c, #rgb/#rgba digit "
+             "doubling and #rrggbb/#rrggbbaa (proved over digits, omega); (3) the HSL conversion equals the CSS Color 3 algorithm for all "
+             "h,s,l over any ordered field and the hue normalisation reaches [0,1] for every hue reduced mod 1. Model tied to the code by "
+             "exhaustive keyword/hex3/hex4/per-channel streams and sampled functional spellings; spec oracle (table, clamping, colorsys) "
+             "evaluated on the implementation.",
+        note="Trusted: Lean kernel + standard axioms; Python int bit operators read as div/mod arithmetic (exhaustively cross-checked per "
+             "channel); %02x / int(s,16); float rounding in %/hsl forms (+-1 LSB tolerated); hue/saturation/lightness setters are checked "
+             "by the oracle only (8-bit quantisation, no theorem).",
+        technique="Lean 4 proof (kernel-decided regenerated table; omega over div/mod; field algebra for HSL) + exhaustive differential correspondence",
+        ref="DESIGN.md §4 C13"),
 }
 ALL = ["C%02d" % i for i in range(1, 21)]
 
